@@ -43,8 +43,9 @@ ASSUMPTIONS = [
     "tornado's static file routes (/static/, /favicon.ico, /robots.txt) serve packaged files and are out of scope",
     "valid credential material is only what the server itself issues (password/token, cookie signed with its secret)",
 ]
-LEVEL_TEXT = ("Exhaustive over the enumerated product in the thorough tier (stratified full-coverage sample in quick: every "
-              "route x method x credential and every route x method x xsrf x sfs pair present); random beyond it.")
+LEVEL_TEXT = ("Exhaustive over the enumerated product in the thorough tier. Quick tier: the full xsrf x sfs product for every "
+              "implemented route x method under 8 key credential forms, and a rotating diagonal (every route x method x "
+              "credential present with one xsrf/sfs pair) for the rest; random raw requests beyond the table.")
 LEVEL_NOTE = "tornado HTTP parsing/cookie signing, loopback transport, harness state digest"
 QUICK_N = 6_000  # fuzz part; the enumerated part is sized by the product
 THOROUGH_N = 300_000
@@ -128,7 +129,7 @@ CREDS = [
 ]
 CRED_CLASS = dict(CREDS)
 # key credential forms that get the full xsrf x sfs product in the quick tier
-KEY_CREDS = ("none", "c-forged-sig", "q-valid", "c-valid")
+KEY_CREDS = ("none", "q-wrong", "h-bearer-wrong", "c-forged-sig", "c-wrong-secret", "q-valid", "h-bearer-valid", "c-valid")
 
 XSRF = [
     ("none", False), ("cookie-only", False), ("header-only", False), ("mismatch", False), ("default-cookie-name", False),
@@ -445,17 +446,18 @@ def product(thorough):
     creds = [c for c, _ in CREDS]
     xs = [x for x, _ in XSRF]
     ss = [s for s, _ in SFS]
+    nxs = len(xs) * len(ss)
     for ri, (path, impl, kind, mut) in enumerate(ROUTES):
         for mi, method in enumerate(METHODS):
             for ci, cred in enumerate(creds):
-                for xi, x in enumerate(xs):
-                    for si, s in enumerate(ss):
-                        if thorough or cred in KEY_CREDS:
+                if thorough or (cred in KEY_CREDS and method in impl):
+                    for x in xs:
+                        for s in ss:
                             yield path, method, cred, x, s
-                        else:
-                            # rotating diagonal: every (route, method, cred) and, over the creds, every (xsrf, sfs)
-                            if (xi * len(ss) + si) % (len(xs) * len(ss)) == (ci * 7 + ri + mi * 3) % (len(xs) * len(ss)):
-                                yield path, method, cred, x, s
+                else:
+                    # rotating diagonal: every (route, method, cred) once; over creds/routes every (xsrf, sfs) pair
+                    k = (ci * 7 + ri + mi * 3) % nxs
+                    yield path, method, cred, xs[k // len(ss)], ss[k % len(ss)]
 
 
 def check_routes_covered(ctx):
